@@ -11,6 +11,20 @@ E3 = "exhaustive / preemption-bounded prange schedule enumeration on source-deri
 
 # id -> (built, category, technique, text, note, design_ref)
 CHECKS = {
+    "C17": (
+        True,
+        "model_checking",
+        E2 + " with a reference heap (buffers, wrappers, containers)",
+        "Breadth-first exploration (depth 3 quick / 4 thorough, float64 and float32) of every interleaving of: storing one Array/"
+        "Vector/derived object in two Datagroups and a Datagroup in a Dataset; x op= y for the four in-place operators with same-unit, "
+        "compatible-different, plain float, incompatible and other-dimension operands on an Array, a Vector, the derived object and "
+        "a member reached through its container; copy(), copy.copy, deepcopy of Array/Vector/Datagroup/Dataset; slicing. After each "
+        "step: value and dimension of x op y from the independent unit table, Array identity preserved, right operand bit-identical, "
+        "same raw numbers through every alias of the buffer, every non-aliased wrapper bit-identical, and the identity and "
+        "shared-memory partitions of all reachable wrappers equal to the reference heap's.",
+        "A slice is a separate wrapper: its unit label is not required to follow a unit-changing update made through another wrapper.",
+        "DESIGN.md §3 C17",
+    ),
     "C07": (
         True,
         "exploration",
